@@ -6,6 +6,8 @@ run(), call(), evaluate()).
 A *history* is a list of ops executed on ONE sandbox (fresh report at the start).  An op is JSON-able:
   {"entry": "run"|"call"|"callmissing"|"eval", "style": <tracer style>, "inject": bool,
    "code": <student file, for run>, "expr": <expression, for eval>,
+   "helper": <source of a second student file helper.py, for run, or absent>,
+   "nested": bool - the executed code imports helper.py (Sandbox._import re-enters the tracer) before it ends,
    "term": ["N"] | ["R", desc] | ["C", desc], "shape": <tag naming the kind of program>}
 and desc = {"cls","isException","isSystemExit","isKeyError","hazards":[...],"synLine":int|None,
             "frames":[[kind,line]...]}   (kind S student / I instructor / P pedal / L library)
@@ -14,15 +16,21 @@ The descriptor is written down BY CONSTRUCTION of the program (and, for compile 
 """
 import builtins
 import json
+import os
 import sys
+import tempfile
 import time
 import unittest.mock
+
+# pedal's coverage tracer calls coverage.save(): keep its data file out of the working directory
+os.environ.setdefault("COVERAGE_FILE", os.path.join(tempfile.gettempdir(), "verif_sandboxexec.coverage"))
 
 from common import CorrResult, Failure, enc_bool, enc_str, dec_str, use_repo
 
 use_repo()
 from pedal.core.commands import clear_report, contextualize_report  # noqa: E402
 from pedal.core.report import MAIN_REPORT  # noqa: E402
+from pedal.core.submission import Submission  # noqa: E402
 from pedal.sandbox import commands  # noqa: E402
 from pedal.sandbox import sandbox as sandbox_module  # noqa: E402
 from pedal.sandbox.result import SandboxResult  # noqa: E402
@@ -30,6 +38,9 @@ from pedal.sandbox.sandbox import Sandbox  # noqa: E402
 
 STYLES = ["none", "native", "calls", "coverage"]
 MAIN_FILE = "answer.py"
+HELPER_FILE = "helper.py"
+HELPER_MODULE = "helper"
+OK_HELPER = "def h():\n    return 5\n\nVALUE = 7\n"
 
 # --------------------------------------------------------------------------
 # exception descriptors
@@ -230,29 +241,50 @@ def compile_failure_desc(code, filename):
 # building programs and ops
 
 
-def program_from_snippet(rng, sn, in_function):
-    """-> (code, frames) where frames are the student frames (+ tail) of the failure, absolute lines."""
+def program_from_snippet(rng, sn, in_function, nest=None):
+    """-> (code, frames, helper) where frames are the student frames (+ tail) of the failure, absolute lines.
+    nest=None: one file.  nest="before": the code first imports a well-behaved helper.py, then fails itself.
+    nest="inside": the failing snippet IS helper.py (top level) and the code imports it."""
     pre = filler(rng, rng.randint(0, 3))
-    if not in_function:
-        lines = pre + sn["lines"]
-        base = len(pre)
-        frames = [["S", base + sn["fail_at"] + 1]] + [["S", base + i + 1] for i in sn["inner"]]
+    imp = ["import " + HELPER_MODULE] if nest else []
+    helper = None
+    if nest == "inside":
+        hpre = filler(rng, rng.randint(0, 4))
+        helper = "\n".join(hpre + sn["lines"]) + "\n"
+        hbase = len(hpre)
+        inner = [["S", hbase + sn["fail_at"] + 1]] + [["S", hbase + i + 1] for i in sn["inner"]]
+        if not in_function:
+            lines = pre + imp + ["print('not reached')"]
+            at = len(pre) + 1
+        else:
+            lines = pre + ["def f():"] + ["    " + imp[0], "    return 1"]
+            at = len(pre) + 2
+        # the import statement, pedal's mocked __import__, Sandbox._import, then the helper's own frames
+        frames = [["S", at], ["P", 0], ["P", 0]] + inner
     else:
-        body = ["    " + l for l in sn["lines"]]
-        lines = pre + ["def f():"] + body + ["    return 1"]
-        base = len(pre) + 1
+        if nest == "before":
+            helper = OK_HELPER
+        if not in_function:
+            lines = pre + imp + sn["lines"]
+            base = len(pre) + len(imp)
+        else:
+            body = ["    " + l for l in imp + sn["lines"]]
+            lines = pre + ["def f():"] + body + ["    return 1"]
+            base = len(pre) + 1 + len(imp)
         frames = [["S", base + sn["fail_at"] + 1]] + [["S", base + i + 1] for i in sn["inner"]]
     frames += [[k, 0] for k in sn["tail"]]
-    return "\n".join(lines) + "\n", frames
+    return "\n".join(lines) + "\n", frames, helper
 
 
 def make_desc(sn, frames):
     return desc(sn["cls"], hazards=sn["hazards"], frames=frames, **sn["flags"])
 
 
-def gen_ops_for_snippet(rng, sn, entry, style, inject):
+def gen_ops_for_snippet(rng, sn, entry, style, inject, nest=None):
     """The ops (setup run included) that make `sn` fail through `entry`."""
     extra = {}
+    if nest:
+        extra["nested"] = True
     if sn["shape"] == "recursion":
         # At the recursion limit CPython cannot call a Python-level trace function any more and silently
         # removes it - that is the interpreter, not pedal.  So no trace function is pre-installed for these
@@ -261,12 +293,16 @@ def gen_ops_for_snippet(rng, sn, entry, style, inject):
         if style == "coverage":
             style = "native"
     if entry == "run":
-        code, frames = program_from_snippet(rng, sn, False)
+        code, frames, helper = program_from_snippet(rng, sn, False, nest)
+        if helper is not None:
+            extra["helper"] = helper
         return [dict({"entry": "run", "style": style, "inject": inject, "code": code,
                       "term": ["R", make_desc(sn, frames)], "shape": sn["shape"]}, **extra)]
-    code, frames = program_from_snippet(rng, sn, True)
+    code, frames, helper = program_from_snippet(rng, sn, True, nest)
     setup = {"entry": "run", "style": rng.choice(STYLES[:3]), "inject": False, "code": code, "term": ["N"],
              "shape": "defs"}
+    if helper is not None:
+        setup["helper"] = helper      # the submission keeps helper.py for the following call / evaluate
     frames = [["I", 1]] + frames
     op = dict({"entry": entry, "style": style, "inject": inject, "term": ["R", make_desc(sn, frames)],
                "shape": sn["shape"]}, **extra)
@@ -282,13 +318,17 @@ def gen_history(rng, snippets, *, max_ops=6, inject_rate=0.06, styles=STYLES):
         r = rng.random()
         style = rng.choice(styles)
         inject = rng.random() < inject_rate
-        if r < 0.15:
+        if r < 0.11:
             ops.append({"entry": "run", "style": style, "inject": inject, "code": rng.choice(NORMAL_PROGRAMS),
                         "term": ["N"], "shape": "normal"})
-        elif r < 0.27:
+        elif r < 0.15:
+            ops.append(nested_normal_op(rng, style, inject))
+        elif r < 0.25:
             code, shape = rng.choice(COMPILE_FAILURES)
             ops.append({"entry": "run", "style": style, "inject": inject, "code": code,
                         "term": ["C", compile_failure_desc(code, MAIN_FILE)], "shape": "compile:" + shape})
+        elif r < 0.27:
+            ops.append(helper_compile_failure_op(rng, style, inject, *rng.choice(COMPILE_FAILURES)))
         elif r < 0.31:
             ops.append({"entry": "callmissing", "style": style, "inject": False, "term": ["N"],
                         "shape": "call-missing"})
@@ -307,8 +347,36 @@ def gen_history(rng, snippets, *, max_ops=6, inject_rate=0.06, styles=STYLES):
         else:
             sn = rng.choice(snippets)
             entry = rng.choice(["run", "run", "run", "call", "eval"])
-            ops.extend(gen_ops_for_snippet(rng, sn, entry, style, inject))
+            nest = rng.choice([None, None, None, "before", "inside"])
+            ops.extend(gen_ops_for_snippet(rng, sn, entry, style, inject, nest))
     return ops
+
+
+NESTED_NORMAL_PROGRAMS = [
+    "import helper\nprint(helper.VALUE)\n",
+    "x = 1\nimport helper\nimport helper as again\nprint(helper.h() + again.VALUE)\n",
+    "from helper import h\nprint(h())\n",
+    "def f():\n    import helper\n    return helper.h()\nprint(f())\n",
+    "try:\n    import helper\nfinally:\n    print('done')\n",
+]
+
+
+def nested_normal_op(rng, style, inject, code=None):
+    """A program that imports the (well-behaved) second student file and ends normally."""
+    return {"entry": "run", "style": style, "inject": inject, "code": code or rng.choice(NESTED_NORMAL_PROGRAMS),
+            "helper": OK_HELPER, "nested": True, "term": ["N"], "shape": "normal-imports-helper"}
+
+
+def helper_compile_failure_op(rng, style, inject, bad_code, shape):
+    """The program imports a second student file that does not compile: `compile` inside Sandbox._import raises
+    while the main file is RUNNING (so: a raised exception whose only student frame is the import statement; the
+    tracer is not re-entered)."""
+    pre = filler(rng, rng.randint(0, 3))
+    code = "\n".join(pre + ["import " + HELPER_MODULE, "print('not reached')"]) + "\n"
+    d = compile_failure_desc(bad_code, HELPER_FILE)
+    d["frames"] = [["S", len(pre) + 1], ["P", 0], ["P", 0]]
+    return {"entry": "run", "style": style, "inject": inject, "code": code, "helper": bad_code, "nested": False,
+            "term": ["R", d], "shape": "helper-compile:" + shape}
 
 
 EVAL_DIRECT = [
@@ -369,6 +437,33 @@ def coverage_histories(rng, per_snippet_entries=("run", "call", "eval")):
         hists.append([{"entry": "run", "style": style, "inject": False, "code": "print('fine')\n", "term": ["N"],
                        "shape": "normal"}])
     hists.append([{"entry": "callmissing", "style": "none", "inject": False, "term": ["N"], "shape": "call-missing"}])
+    # programs that import a second student file (Sandbox._import inside _execute)
+    pinned = []
+    for style in STYLES:
+        for code in NESTED_NORMAL_PROGRAMS[:2]:
+            pinned.append([nested_normal_op(rng, style, False, code)])
+        for sn in kb:
+            pinned.append(gen_ops_for_snippet(rng, sn, "run", style, False, "inside"))
+            pinned.append(gen_ops_for_snippet(rng, sn, "call", style, False, "before"))
+        pinned.append(gen_ops_for_snippet(rng, [x for x in kb if x["shape"] == "builtin:ValueError"][0], "run", style,
+                                          True, "inside"))
+        pinned.append([helper_compile_failure_op(rng, style, False, *COMPILE_FAILURES[0])])
+    for h in pinned:
+        h[-1]["pin"] = True
+    hists += pinned
+    for code in NESTED_NORMAL_PROGRAMS[2:]:
+        style = STYLES[k % len(STYLES)]
+        k += 1
+        hists.append([nested_normal_op(rng, style, False, code)])
+    for bad_code, shape in COMPILE_FAILURES:
+        style = STYLES[k % len(STYLES)]
+        k += 1
+        hists.append([helper_compile_failure_op(rng, style, False, bad_code, shape)])
+    for sn in snippets:
+        for entry, nest in (("run", "inside"), ("call", "before"), ("eval", "inside")):
+            style = STYLES[k % len(STYLES)]
+            k += 1
+            hists.append(gen_ops_for_snippet(rng, sn, entry, style, False, nest))
     return hists
 
 
@@ -460,7 +555,11 @@ def run_history(ops):
     try:
         for op in ops:
             if op["entry"] == "run":
-                contextualize_report(op["code"], filename=MAIN_FILE, clear=False)
+                if op.get("helper") is not None:
+                    contextualize_report(Submission(files={MAIN_FILE: op["code"], HELPER_FILE: op["helper"]}),
+                                         clear=False)
+                else:
+                    contextualize_report(op["code"], filename=MAIN_FILE, clear=False)
             sb = commands.get_sandbox()
             sb.tracer_style = op["style"]
             n_before = len(MAIN_REPORT.feedback)
@@ -562,7 +661,7 @@ def enc_desc(d):
 
 
 def enc_op(op):
-    toks = [op["entry"], enc_str(op["style"]), enc_bool(op.get("inject", False))]
+    toks = [op["entry"], enc_str(op["style"]), enc_bool(op.get("nested", False)), enc_bool(op.get("inject", False))]
     t = op["term"]
     if op["entry"] == "callmissing" or t[0] == "N":
         toks.append("N")
@@ -704,8 +803,9 @@ def oracle_c05(op, o):
         sig["termination"] = how
         if op.get("inject"):
             sig["injected"] = True
-    return sig, "after %s() of a program ending by %s (tracer style %s%s) not restored: %s" % (
-        op["entry"].replace("callmissing", "call"), how if t[0] == "N" else t[1]["cls"], op["style"],
+    return sig, "after %s() of a program %sending by %s (tracer style %s%s) not restored: %s" % (
+        op["entry"].replace("callmissing", "call"), "importing another student file and " if op.get("nested") else "",
+        how if t[0] == "N" else t[1]["cls"], op["style"],
         ", recording failure injected" if op.get("inject") else "", ", ".join(leaked))
 
 
